@@ -26,11 +26,11 @@ def cfg_term(d, is_client):
         cid = "None"
     else:
         cid = "Some %s" % cNlist(fixed_cid(is_client, d["cid"]))
-    return ("(mkCfg %d %d (%s) %s %s %d %d %d %s %s %s %s %d %s %s %s (%s) %s %s)" % (
+    return ("(mkCfg %d %d (%s) %s %s %d %d %d %s %s %s %s %d %s %s %s (%s) %s %s %d %s)" % (
         d["min"], d["max"], suites, cbool(d["psk"]), cbool(d["hint"]), d["key"], CHAIN_SIG, d["client_auth"],
         cbool(d["skip_verify"]), cNlist(d["curves"] or []), cNlist(d["sigs"] or []), cNlist(d["csigs"] or []),
         d["ems"], cNlist(d["srtp"] or []), cNlist(hexbytes(d["mki"])), cNlist(d["alpn"] or []), cid,
-        cbool(d["store"]), cbool(d["skip_hv"])))
+        cbool(d["store"]), cbool(d["skip_hv"]), d.get("key2", 0), cbool(d.get("sni", 0) == 1)))
 
 
 def alpn_id(s):
@@ -81,7 +81,8 @@ def obs_term(c):
             sig = c["ske_sig"]
             csig = c["cv_sig"]
     ems = (cl["ems"] and sv["ems"]) if not v13 else True
-    return ("(mkObs %s %s %d %d %d %d %s %s %s %s %d %s %s %d %s %s %s %s %s %s %s %s)" % (
+    skey = cl.get("peer_key") if (ok and "peer_key" in cl) else None
+    return ("(mkObs %s %s %d %d %d %d %s %s %s %s %d %s %s %d %s %s %s %s %s %s %s %s %s)" % (
         cbool(cl["built"]), cbool(sv["built"]), k, a,
         cl["version"] if ok else 0, cl["suite"] if ok else 0, opt(group), opt(sig), opt(csig), cbool(ems if ok else False),
         cl["srtp"] if ok else 0, cNlist(hexbytes(cl["rmki"]) if ok else []), cNlist(hexbytes(sv["rmki"]) if ok else []),
@@ -89,12 +90,46 @@ def obs_term(c):
         cNlist(hexbytes(cl["lcid"]) if ok else []), cNlist(hexbytes(sv["lcid"]) if ok else []),
         cbool(cl["rrc"] if ok else False), cbool(res if ok else False),
         cbool(cl["ncerts"] > 0 if ok else False), cbool(sv["ncerts"] > 0 if ok else False),
-        cNlist(c["ch1"]["exts"] or [] if ok else []), cNlist(c["sh"]["exts"] or [] if ok else [])))
+        cNlist(c["ch" if steered(c) else "ch1"]["exts"] or [] if ok else []), cNlist(c["sh"]["exts"] or [] if ok else []),
+        opt(skey)))
 
 
 def case_term(c):
     seeded = bool(c["resume"] and c["seeded"])
     return "(%s, %s, %s, %s)" % (cfg_term(c["c"], True), cfg_term(c["s"], False), cbool(seeded), obs_term(c))
+
+
+def steer_of(c):
+    return c.get("steer") or {}
+
+
+def steered(c):
+    st = steer_of(c)
+    return bool(st.get("ch1_groups") is not None or st.get("ch1_alpn") is not None or st.get("ch1_strip_ems")
+                or st.get("ch1_strip_sni") or st.get("ch1_strip_vers") or st.get("sh_alpn"))
+
+
+def steer_modelled(c):
+    """the DTLS 1.2 steering model applies: two 1.2-only endpoints, no version stripping, and a rewritten
+    first ClientHello only when hello verification is on (otherwise the Finished messages cover it: C04)"""
+    st = steer_of(c)
+    if st.get("ch1_strip_vers") or allowed_versions(c["c"]) != [2] or allowed_versions(c["s"]) != [2]:
+        return False
+    ch1 = st.get("ch1_groups") is not None or st.get("ch1_alpn") is not None or st.get("ch1_strip_ems") or st.get("ch1_strip_sni")
+    return not (ch1 and c["s"]["skip_hv"])
+
+
+def steer_term(st):
+    def o(l):
+        return "None" if l is None else "(Some %s)" % cNlist(l)
+    return "(mkSteer %s %s %s %s %d)" % (o(st.get("ch1_groups")), o(st.get("ch1_alpn")), cbool(st.get("ch1_strip_ems", False)),
+                                       cbool(st.get("ch1_strip_sni", False)), st.get("sh_alpn", 0))
+
+
+def steer_case_term(c):
+    seeded = bool(c["resume"] and c["seeded"])
+    return "(%s, %s, %s, %s, %s, %s)" % (cfg_term(c["c"], True), cfg_term(c["s"], False), cbool(seeded),
+                                       cbool(not c["s"]["skip_hv"]), steer_term(steer_of(c)), obs_term(c))
 
 
 def predicted(name, cases):
@@ -132,12 +167,20 @@ def slim_cfg(d):
 def slim_case(c):
     def side(s):
         return {k: v for k, v in s.items() if v not in (None, [], "", False, 0, -1)}
-    return {"c": slim_cfg(c["c"]), "s": slim_cfg(c["s"]), "resume": c["resume"], "seeded": c["seeded"], "mask": c["mask"],
+    extra = {}
+    if steered(c):
+        extra["steer"] = steer_of(c)
+    if (c.get("seed") or {}).get("used"):
+        extra["seed"] = {"c": slim_cfg(c["seed"]["c"]), "s": slim_cfg(c["seed"]["s"]), "ok": c["seed"]["ok"],
+                         "ems": c["seed"]["ems"], "ms_hash": c["seed"]["ms_hash"]}
+    return {**extra, "c": slim_cfg(c["c"]), "s": slim_cfg(c["s"]), "resume": c["resume"], "seeded": c["seeded"], "mask": c["mask"],
             "client": side(c["client"]), "server": side(c["server"]), "ch": side(c["ch"]), "sh": side(c["sh"]),
             "alerts": c["alerts"], "hrr": c["hrr_seen"], "hvr": c["hvr_seen"], "ske_sig": c["ske_sig"],
             "ske_curve": c["ske_curve"], "cv_sig": c["cv_sig"], "tdone_ms": c["tdone"], "data_ok": c["data_ok"],
             "gen": c["gen"], "id": c["id"],
-            "rerun": "bin/check C11 (VERIF_SEED as recorded) or: TestVerifC11X with C11X_C / C11X_S = the two option sets"}
+            "rerun": "bin/check C11 (VERIF_SEED as recorded) or: TestVerifC11X (tags c11,c11x) with C11X_C / C11X_S = the two "
+                     "option sets (full c11Cfg JSON), C11X_STEER = the steer object, C11X_RESUME=1 + C11X_SEED_C / C11X_SEED_S "
+                     "= the option sets of the seeding association"}
 
 
 # ----------------------------------------------------------------- policy oracle of the monitors (independent of the Coq model)
@@ -167,6 +210,8 @@ def allowed_versions(d):
             vs = sv
     if d["curves"]:
         vs = [v for v in vs if any(c != MLKEM or v == 3 for c in d["curves"])]
+    if d["psk"] and not d["key"]:
+        vs = [v for v in vs if v != 3]      # a PSK-only option set does not offer DTLS 1.3
     return vs
 
 
@@ -228,7 +273,12 @@ def monitor_in_policy(c):
         out.append(("version-outside-range", "negotiated version %d, client allows %s, server allows %s" % (v, av_c, av_s)))
     common = [x for x in av_c if x in av_s]
     if common and v != max(common):
-        out.append(("version-not-highest", "negotiated version %d but both allow %d" % (v, max(common))))
+        if steer_of(c).get("ch1_strip_vers"):
+            out.append(("version-downgrade-through-first-client-hello",
+                        "supported_versions stripped from the first ClientHello on path (and the datagram forwarded twice): "
+                        "both sides complete on version %d although both allow %d" % (v, max(common))))
+        else:
+            out.append(("version-not-highest", "negotiated version %d but both allow %d" % (v, max(common))))
     s = cl["suite"]
     if s not in (c["ch1"]["suites"] or []) or s not in enabled_suites(cc):
         out.append(("suite-not-offered", "suite %#06x not offered by the client (%s)" % (s, c["ch1"]["suites"])))
@@ -236,6 +286,11 @@ def monitor_in_policy(c):
         out.append(("suite-not-enabled-on-server", "suite %#06x not enabled on the server" % s))
     if not fits_key(sc["key"], s):
         out.append(("suite-does-not-fit-key", "suite %#06x with server key type %d" % (s, sc["key"])))
+    if cl.get("peer_key") and not fits_key(cl["peer_key"], s):
+        kt = {1: "Ed25519", 2: "ECDSA", 3: "RSA"}
+        out.append(("suite-does-not-fit-presented-certificate",
+                    "suite %#06x completed with the %s certificate of %r (ServerKeyExchange signed with %#06x)" % (
+                        s, kt.get(cl["peer_key"]), cl.get("peer_name"), c["ske_sig"])))
     if suite_version(s) != v:
         out.append(("suite-of-other-version", "suite %#06x on version %d" % (s, v)))
     g = cl["group"]
@@ -251,8 +306,12 @@ def monitor_in_policy(c):
     for side in (cl, sv):
         if side["srtp"] and (side["srtp"] not in (cc["srtp"] or []) or side["srtp"] not in (sc["srtp"] or [])):
             out.append(("srtp-outside-policy", "SRTP profile %d, lists %s / %s" % (side["srtp"], cc["srtp"], sc["srtp"])))
-        if side["alpn"] and (side["alpn"] not in alpn_names(cc) or side["alpn"] not in alpn_names(sc)):
-            out.append(("alpn-outside-policy", "ALPN %s, lists %s / %s" % (side["alpn"], alpn_names(cc), alpn_names(sc))))
+        own = alpn_names(cc if side is cl else sc)
+        rogue = bool(steer_of(c).get("sh_alpn"))   # a rogue server's answer: each side is held to its OWN list only
+        if side["alpn"] and (side["alpn"] not in own or (not rogue and (
+                side["alpn"] not in alpn_names(cc) or side["alpn"] not in alpn_names(sc)))):
+            out.append(("alpn-outside-policy", "%s reports ALPN %s, lists %s / %s" % (
+                "client" if side is cl else "server", side["alpn"], alpn_names(cc), alpn_names(sc))))
     if v == 2 and (cc["ems"] == 1 or sc["ems"] == 1) and not (cl["ems"] and sv["ems"]):
         out.append(("ems-required-but-off", "EMS policy %d/%d, flags %s/%s" % (cc["ems"], sc["ems"], cl["ems"], sv["ems"])))
     return out
@@ -372,3 +431,68 @@ def monitor_agreement(c):
     if not c["data_ok"]:
         out.append(("application-data", "payloads: client read %r, server read %r" % (cl["reads"], sv["reads"])))
     return out
+
+
+# ----------------------------------------------------------------- monitors of the steered leg
+
+def monitor_ems_resumption(c):
+    """a side that requires extended master secret never completes without it - also when the handshake is a resumption"""
+    if not both_ok(c) or not resumed_obs(c):
+        return []
+    seed = c.get("seed") or {}
+    if not (seed.get("used") and seed.get("ok")) or seed.get("ems"):
+        return []
+    if c["c"]["ems"] != 1 and c["s"]["ems"] != 1:
+        return []
+    if c["server"].get("ms_hash") and c["server"]["ms_hash"] == seed.get("ms_hash"):
+        who = "server" if c["s"]["ems"] == 1 else "client"
+        return [("ems-required-but-resumed-session-negotiated-without-ems",
+                 "the %s requires extended master secret; the association completes as a resumption of a session negotiated "
+                 "WITHOUT it (seeding association: client policy %d, server policy %d, EMS off) under the byte-identical master "
+                 "secret (hash %s), while both sides flag EMS as on" % (who, seed["c"]["ems"], seed["s"]["ems"], seed["ms_hash"]))]
+    return []
+
+
+def monitor_sni_refusal(c):
+    """a refusal although a suite both sides enable fits the certificate the client's server name selects"""
+    cc, sc = c["c"], c["s"]
+    if both_ok(c) or not (cc.get("sni") == 1 and sc.get("key2", 0) > 0 and sc["key"] > 0):
+        return []
+    if not (c["server"]["class"] == "sent" and c["server"]["alert"] == 71):
+        return []
+    fit = [x for x in enabled_suites(cc) if x in enabled_suites(sc) and suite_version(x) == 2
+           and (x in ECDSA_SUITES or x in RSA_SUITES) and fits_key(sc["key2"], x)]
+    if fit and 2 in allowed_versions(cc) and 2 in allowed_versions(sc) and not [
+            x for x in enabled_suites(cc) if x in enabled_suites(sc) and fits_key(sc["key"], x) and suite_version(x) == 2]:
+        return [("refused-although-suite-fits-sni-certificate",
+                 "refused with insufficient_security although suite(s) %s are enabled on both sides and fit the key (type %d) of "
+                 "the certificate the server name selects; the server filtered its suites with its default certificate (type %d)"
+                 % ([hex(x) for x in fit], sc["key2"], sc["key"]))]
+    return []
+
+
+OUTCOME_FIELDS = (("client", "class"), ("server", "class"), ("client", "alert"), ("client", "version"), ("client", "suite"),
+                  ("server", "suite"), ("client", "group"), ("server", "group"), ("client", "ems"), ("server", "ems"),
+                  ("client", "alpn"), ("server", "alpn"), ("client", "srtp"), ("server", "srtp"), ("client", "peer_key"),
+                  ("client", "peer_name"), ("client", "lcid"), ("client", "rcid"))
+
+
+def monitor_first_hello(steered_case, untouched_case):
+    """what no Finished covers must not decide anything: the association with a rewritten first ClientHello comes out
+    exactly as the untouched one"""
+    diff = [(a, b, untouched_case[a][b], steered_case[a][b]) for a, b in OUTCOME_FIELDS
+            if steered_case[a].get(b) != untouched_case[a].get(b)]
+    if not diff or not steer_of(steered_case).get("applied") or not both_ok(untouched_case):
+        return []
+    if not both_ok(steered_case) and not steered_case["hvr_seen"]:
+        # the server refused the rewritten hello itself, before answering it: denial of service is always possible
+        return []
+    st = {k: v for k, v in steer_of(steered_case).items() if v not in (None, False, 0)}
+    return [("first-hello-rewrite-changes-the-association",
+             "first ClientHello rewritten on path %s: %s" % (
+                 json_dumps(st), "; ".join("%s %s %r -> %r" % d for d in diff)))]
+
+
+def json_dumps(x):
+    import json
+    return json.dumps(x, sort_keys=True)
